@@ -778,6 +778,7 @@ func subprocessRunner(t *testing.T, sc *Scenario) *World {
 // RunThreadShard is the C11 shard loop.
 func RunThreadShard(t *testing.T, env *ShardEnv) *ShardReport {
 	rep := newShardReport(env.Prop, "threads", env.Shard, env.Tier, env.Seed)
+	liveReport = rep
 	start := time.Now()
 	shardSeed := mixSeed(env.Seed, strSeed(env.Prop), uint64(env.Shard))
 	nt := map[uint64]bool{}
